@@ -562,6 +562,44 @@ Proof.
   - intros c' Hc'. apply (co_exists (c_af c')). exact (comp_af_wf F (c :: rest) Hok c' Hc').
 Qed.
 
+Lemma on_done_bind : forall A B (m : M A) (k : A -> M B) (Q : A -> Prop) (R : B -> Prop),
+  on_done m Q -> (forall a, Q a -> on_done (k a) R) -> on_done (bind m k) R.
+Proof.
+  intros A B m k Q R Hm Hk s. unfold bind. specialize (Hm s).
+  destruct (m s) as [a s'| | |]; try exact I. exact (Hk a Hm s').
+Qed.
+
+Lemma on_done_ret : forall A (a : A) (Q : A -> Prop), Q a -> on_done (ret a) Q.
+Proof. intros A a Q H s. exact H. Qed.
+
+(* what the public dispatcher [run_query] promises, per kind of query *)
+Definition se_outcome (s : sem) (F : af) (o : outcome) : Prop :=
+  match o with
+  | OExt (Some L) => ext s F L /\ NoDup L /\ incl L (args F)
+  | OExt None => forall S, ~ ext s F S
+  | OAcc _ _ => False
+  end.
+Definition dc_outcome (s : sem) (F : af) (al : list nat) (cert : bool) (o : outcome) : Prop :=
+  match o with
+  | OAcc b c =>
+      (b = true <-> cred s F al) /\
+      match c with
+      | Some L => cert = true /\ b = true /\ ext s F L /\ incl L (args F) /\ exists a, In a al /\ In a L
+      | None => cert = true -> b = false
+      end
+  | OExt _ => False
+  end.
+Definition ds_outcome (s : sem) (F : af) (al : list nat) (cert : bool) (o : outcome) : Prop :=
+  match o with
+  | OAcc b c =>
+      (b = true <-> skep s F al) /\
+      match c with
+      | Some L => cert = true /\ b = false /\ ext s F L /\ incl L (args F) /\ forall a, In a al -> ~ In a L
+      | None => cert = true -> b = true
+      end
+  | OExt _ => False
+  end.
+
 (* ------------------------------------------------------------------------------------------ *)
 (** * The whole-framework theorems *)
 
@@ -822,4 +860,86 @@ Proof using Hthr Hvalid Hmerged Hgr_cc Hgr_cc_nd.
   destruct (glue_ext_full F (c :: rest) Hok CO _ H) as [_ [H3 H4]]. split; assumption.
 Qed.
 
+(* ---------------------------------------------------------------- the dispatcher *)
+Theorem run_query_se_whole : forall fuel s cert e al, s = GR \/ s = ST ->
+  on_done (run_query oracle thr fuel s QSE cert e g al) (se_outcome s F).
+Proof using Hthr Hvalid Hcc Hgr.
+  intros fuel s cert e al [-> | ->]; unfold run_query; cbv zeta.
+  - apply on_done_ret. exact gr_se_whole.
+  - apply (on_done_bind _ _ _ _ _ _ st_se_whole). intros r H. apply on_done_ret. exact H.
+Qed.
+
+Theorem run_query_dc_whole : forall fuel s cert e al,
+  s = GR \/ s = ST \/
+  (s = CO /\ enc_base e = BCo /\ al <> [] /\ forall a, In a al -> In a (args F)) ->
+  on_done (run_query oracle thr fuel s QDC cert e g al) (dc_outcome s F al cert).
+Proof using Hthr Hvalid Hwf Hcc Hmerged Hgr Hgr_cc.
+  intros fuel s cert e al [-> | [-> | [-> [He [Hne Hal]]]]]; unfold run_query; cbv zeta.
+  - (* GR *)
+    destruct (gr_dc g al) as [b c] eqn:E. destruct (gr_dc_whole al b c E) as [H1 H2].
+    destruct cert; apply (on_done_bind _ _ _ _ (fun r => r = (b, c)));
+      try (apply on_done_ret; reflexivity); intros r ->; apply on_done_ret; cbn [dc_outcome fst snd];
+      (split; [exact H1|]).
+    + destruct c as [L|]; [|intros _; exact H2].
+      destruct H2 as [Hb [Hg [_ [Hi Hm]]]]. split; [reflexivity|]. split; [exact Hb|].
+      split; [exact Hg|]. split; [exact Hi|exact Hm].
+    + discriminate.
+  - (* ST *)
+    destruct cert; apply (on_done_bind _ _ _ _ _ _ (st_dc_whole al));
+      intros [[|] [L|]] H; try (destruct H; fail); apply on_done_ret; cbn [dc_outcome fst snd].
+    + destruct H as [H1 [_ [H3 [H4 H5]]]]. split; [split; [intros _; exact H5|reflexivity]|].
+      split; [reflexivity|]. split; [reflexivity|]. split; [exact H1|]. split; [exact H3|exact H4].
+    + split; [split; [discriminate|intros Hc; destruct (H Hc)]|]. reflexivity.
+    + destruct H as [_ [_ [_ [_ H5]]]]. split; [split; [intros _; exact H5|reflexivity]|]. discriminate.
+    + split; [split; [discriminate|intros Hc; destruct (H Hc)]|]. discriminate.
+  - (* CO *)
+    destruct cert.
+    + apply (on_done_bind _ _ _ _ _ _ (co_dc_cert_whole e al He Hne Hal)).
+      intros [[|] [L|]] H; try (destruct H; fail); apply on_done_ret; cbn [dc_outcome fst snd].
+      * destruct H as [H1 [H2 [H3 H4]]]. split; [split; [intros _; exact H4|reflexivity]|].
+        split; [reflexivity|]. split; [reflexivity|]. split; [exact H1|]. split; [exact H2|exact H3].
+      * split; [split; [discriminate|intros Hc; destruct (H Hc)]|]. reflexivity.
+    + apply (on_done_bind _ _ _ _ _ _ (co_dc_whole e al He Hne Hal)).
+      intros b H. apply on_done_ret. cbn [dc_outcome]. split; [exact H|discriminate].
+Qed.
+
+Theorem run_query_ds_whole : forall fuel s cert e al, s = GR \/ s = ST ->
+  on_done (run_query oracle thr fuel s QDS cert e g al) (ds_outcome s F al cert).
+Proof using Hthr Hvalid Hwf Hcc Hgr.
+  intros fuel s cert e al [-> | ->]; unfold run_query; cbv zeta.
+  - (* GR *)
+    destruct (gr_ds g al) as [b c] eqn:E. destruct (gr_ds_whole al b c E) as [H1 H2].
+    destruct cert; apply (on_done_bind _ _ _ _ (fun r => r = (b, c)));
+      try (apply on_done_ret; reflexivity); intros r ->; apply on_done_ret; cbn [ds_outcome fst snd];
+      (split; [exact H1|]).
+    + destruct c as [L|]; [|intros _; exact H2].
+      destruct H2 as [Hb [Hg [_ [Hi Hm]]]]. split; [reflexivity|]. split; [exact Hb|].
+      split; [exact Hg|]. split; [exact Hi|exact Hm].
+    + discriminate.
+  - (* ST *)
+    destruct cert; apply (on_done_bind _ _ _ _ _ _ (st_ds_whole al));
+      intros [[|] [L|]] H; try (destruct H; fail); apply on_done_ret; cbn [ds_outcome fst snd].
+    + split; [split; [intros _; exact H|reflexivity]|]. reflexivity.
+    + destruct H as [H1 [_ [H3 [H4 H5]]]]. split; [split; [discriminate|intros Hc; destruct (H5 Hc)]|].
+      split; [reflexivity|]. split; [reflexivity|]. split; [exact H1|]. split; [exact H3|exact H4].
+    + split; [split; [intros _; exact H|reflexivity]|]. discriminate.
+    + destruct H as [_ [_ [_ [_ H5]]]]. split; [split; [discriminate|intros Hc; destruct (H5 Hc)]|].
+      discriminate.
+Qed.
+
 End Whole.
+
+(* ------------------------------------------------------------------------------------------ *)
+Print Assumptions glue_ext.
+Print Assumptions gr_se_whole.
+Print Assumptions gr_dc_whole.
+Print Assumptions gr_ds_whole.
+Print Assumptions st_se_whole.
+Print Assumptions st_dc_whole.
+Print Assumptions st_ds_whole.
+Print Assumptions co_dc_whole.
+Print Assumptions co_dc_cert_whole.
+Print Assumptions co_dc_cert_nodup.
+Print Assumptions run_query_se_whole.
+Print Assumptions run_query_dc_whole.
+Print Assumptions run_query_ds_whole.
